@@ -335,3 +335,151 @@ def rule_coroutines_run(ctx, rule, prefixes, label, minimum=60):
     rep.add(rule, '%s / every coroutine the library creates is run' % label, None, not bad,
             '%d calls of library coroutine functions: none is dropped as a statement or returned un-awaited from a '
             'coroutine' % n_calls if not bad else '%d coroutines are created and never run' % len(bad))
+
+
+# ------------------------------------------------------------------------------------------------ dispatch tables
+def _arity(fn, bound_method):
+    a = fn.node.args
+    names = [x.arg for x in a.posonlyargs + a.args]
+    if bound_method and names:
+        names = names[1:]
+    required = len(names) - len(a.defaults)
+    return max(required, 0), (None if a.vararg is not None else len(names))
+
+
+def rule_dispatch_table_arity(ctx, rule, prefixes, label, minimum=2):
+    """Functions kept in a dispatch table (a dict literal whose values are functions or bound methods) are called
+    through the table with one argument list: every function in the table - and the default handed to .get() - must
+    accept that many positional arguments.  A handler with another signature put into the table raises TypeError only
+    for the key it is stored under (for the frame logger: only for the undecodable-frame marker, and only when debug
+    logging is on - inside the receive loop)."""
+    rep = ctx.report
+    repo = ctx.repo
+    n_tables = 0
+    n_sites = 0
+    bad = []
+    for mod in repo.modules.values():
+        if not any(mod.name.startswith(p) for p in prefixes):
+            continue
+        fns = [f for f in repo.all_functions() if f.module is mod]
+        # tables: name -> [(value expr, FuncInfo, bound?)], from module level and from function bodies
+        tables = {}
+        scopes = [(None, mod.tree if hasattr(mod, 'tree') else None)] + [(f, f.node) for f in fns]
+        for owner, node in scopes:
+            if node is None:
+                continue
+            body_nodes = node.body if owner is None else list(walk_local(node))
+            for st in body_nodes:
+                if isinstance(st, (ast.Assign, ast.AnnAssign)) and isinstance(getattr(st, 'value', None), ast.Dict):
+                    tgt = st.targets[0] if isinstance(st, ast.Assign) else st.target
+                    if not isinstance(tgt, ast.Name) or len(st.value.values) < 2:
+                        continue
+                    entries = []
+                    for v in st.value.values:
+                        g = None
+                        bound = False
+                        if isinstance(v, ast.Name):
+                            r = repo.resolve_name(mod, v.id)
+                            if isinstance(r, list) and r and isinstance(r[0], FuncInfo):
+                                g = r[-1]
+                        elif isinstance(v, ast.Attribute) and isinstance(v.value, ast.Name) and v.value.id == 'self' \
+                                and owner is not None and owner.cls is not None:
+                            g = owner.cls.lookup(v.attr)
+                            bound = True
+                        if g is None:
+                            entries = None
+                            break
+                        entries.append((v, g, bound))
+                    if entries:
+                        tables[tgt.id] = entries
+        if not tables:
+            continue
+        n_tables += len(tables)
+        # a table built in one method and handed on as an argument is known in the callee under the parameter's name
+        alias = {}   # (callee qualname, parameter name) -> table name
+        owners = {}
+        for owner, node in scopes:
+            if owner is None or node is None:
+                continue
+            for st in walk_local(node):
+                if isinstance(st, (ast.Assign, ast.AnnAssign)) and isinstance(getattr(st, 'value', None), ast.Dict):
+                    tgt = st.targets[0] if isinstance(st, ast.Assign) else st.target
+                    if isinstance(tgt, ast.Name) and tgt.id in tables:
+                        owners[tgt.id] = owner
+        work = [(owner, tname, tname) for tname, owner in owners.items()]
+        depth = 0
+        while work and depth < 4:
+            depth += 1
+            nxt = []
+            for fn_, local_name, tname in work:
+                for c in walk_local(fn_.node):
+                    if not (isinstance(c, ast.Call) and isinstance(c.func, ast.Attribute) and
+                            isinstance(c.func.value, ast.Name) and c.func.value.id == 'self' and fn_.cls is not None):
+                        continue
+                    g = fn_.cls.lookup(c.func.attr)
+                    if g is None:
+                        continue
+                    params = g.params()[1:]
+                    for i_, a in enumerate(c.args):
+                        if isinstance(a, ast.Name) and a.id == local_name and i_ < len(params):
+                            key = (g.qualname, params[i_])
+                            if key not in alias:
+                                alias[key] = tname
+                                nxt.append((g, params[i_], tname))
+            work = nxt
+        for f in fns:
+            local_tables = dict((k, k) for k in tables if k not in owners or owners[k] is f)
+            for (q, pname), tname in alias.items():
+                if q == f.qualname:
+                    local_tables[pname] = tname
+            single = {}
+            for st in walk_local(f.node):
+                if isinstance(st, ast.Assign) and len(st.targets) == 1 and isinstance(st.targets[0], ast.Name):
+                    single.setdefault(st.targets[0].id, []).append(st.value)
+
+            def table_lookup(e):
+                """(table name, default expr) when e looks an entry up in a known table"""
+                if isinstance(e, ast.Subscript) and isinstance(e.value, ast.Name) and e.value.id in local_tables:
+                    return local_tables[e.value.id], None
+                if isinstance(e, ast.Call) and isinstance(e.func, ast.Attribute) and e.func.attr == 'get' and \
+                        isinstance(e.func.value, ast.Name) and e.func.value.id in local_tables:
+                    return local_tables[e.func.value.id], (e.args[1] if len(e.args) > 1 else None)
+                return None
+
+            for c in walk_local(f.node):
+                if not isinstance(c, ast.Call):
+                    continue
+                look = table_lookup(c.func)
+                if look is None and isinstance(c.func, ast.Name) and len(single.get(c.func.id, [])) == 1:
+                    look = table_lookup(single[c.func.id][0])
+                if look is None:
+                    continue
+                if any(isinstance(a, ast.Starred) for a in c.args) or any(k.arg is None for k in c.keywords):
+                    continue
+                n_sites += 1
+                npos = len(c.args)
+                tname, default = look
+                cands = list(tables[tname])
+                if isinstance(default, ast.Name):
+                    r = repo.resolve_name(mod, default.id)
+                    if isinstance(r, list) and r and isinstance(r[0], FuncInfo):
+                        cands.append((default, r[-1], False))
+                for v, g, bound in cands:
+                    lo, hi = _arity(g, bound)
+                    if npos < lo or (hi is not None and npos > hi):
+                        bad.append((f, c, tname, g, npos, lo, hi))
+    if n_tables < minimum or n_sites < minimum:
+        raise AnalysisError('%s: %d dispatch tables / %d call sites found in %s' % (rule, n_tables, n_sites, label))
+    seen = set()
+    for f, c, tname, g, npos, lo, hi in bad:
+        key = (tname, g.qualname)
+        if key in seen:
+            continue
+        seen.add(key)
+        rep.bad(rule, '%s[%s] / called with %d arguments' % (tname, g.node.name, npos), (f.file, c.lineno),
+                '%s calls the entry of %s with %d positional arguments; %s, stored in the table, takes %s: TypeError '
+                'for the key it is stored under' % (f.short, tname, npos, g.short,
+                                                    '%d' % lo if lo == hi else 'between %d and %s' % (lo, hi)))
+    rep.add(rule, '%s / dispatch tables and their call sites agree' % label, None, not bad,
+            '%d tables, %d calls through them: every stored function accepts the arguments passed' % (
+                n_tables, n_sites) if not bad else '%d stored functions do not fit their table\'s call' % len(bad))
